@@ -47,7 +47,29 @@ PlainTags(ev, a) ==
     (IF DOMAIN keys # want THEN {"keyset"} ELSE {})
     \cup (IF \E w \in Range(ev.load.warns) : w.kind = "unused" THEN {"unused-warning-for-plain-keys"} ELSE {})
 
+\* the project with several plural keys: every key is a plural with six forms, and the unused-form diagnostics are exactly one per
+\* (locale, key path, form the locale's rules never select)
+MultiTags(ev, a) ==
+    IF ev.load.outcome # "Ok" THEN {"multi-outcome:" \o ev.load.outcome}
+    ELSE
+      LET keys == ev.load.units[1].keys
+          ns   == IF "NS" \in DOMAIN IOEnv THEN IOEnv.NS ELSE None
+          got  == SelectSeq(ev.load.warns, LAMBDA w : w.kind = "unused")
+          exp  == { [kind |-> "unused", locale |-> x, at |-> [ns |-> ns, path |-> <<a.top[i]>>], form |-> f, rt |-> "cardinal"]
+                    : x \in LocSet, i \in DOMAIN a.top, f \in Range(AllForms) }
+                  \cup { [kind |-> "unused", locale |-> x, at |-> [ns |-> ns, path |-> <<"g", a.nested[i]>>], form |-> f, rt |-> "ordinal"]
+                    : x \in LocSet, i \in DOMAIN a.nested, f \in Range(AllForms) }
+          expU == { w \in exp : w.form \notin Range(Oracle.categories[w.locale][w.rt]) } IN
+      (IF DOMAIN keys # Range(a.top) \cup {"g"} THEN {"multi-keyset"}
+       ELSE IF keys["g"].t # "sub" \/ DOMAIN keys["g"].keys # Range(a.nested) THEN {"multi-nested-keyset"}
+       ELSE UNION { IF \A x \in LocSet : Len(keys[b].vals[x].c) = 1 /\ keys[b].vals[x].c[1].k = "plurals"
+                                          /\ DOMAIN keys[b].vals[x].c[1].forms = Range(AllForms)
+                    THEN {} ELSE {"multi-not-six-forms:" \o b} : b \in Range(a.top) })
+      \cup (IF Range(got) # expU THEN {"multi-unused-warnings"} ELSE {})
+      \cup (IF Len(got) # Cardinality(Range(got)) THEN {"multi-unused-warnings-duplicated"} ELSE {})
+
 CaseTags(ev) ==
+    IF "multi" \in DOMAIN Cases[ev.case].abs THEN MultiTags(ev, Cases[ev.case].abs) ELSE
     LET a == Cases[ev.case].abs
         ms == Range(a.members)            \* JSON array back to a set
         res == Merge(ms, a.baseIsKey)
